@@ -17,7 +17,7 @@ RULE = ("Hypothesis-generated 3D mesh (1-3 nested levels, mixed extents, non-zer
         "(single / scattered / non-monotone, classes of the pair recorded) x vars1 in {None, space separated names} "
         "x vars2 in {None, name list} (unknown names included); oracle = taste + independent reader + model "
         "`fields(sel1) ++ fields(sel2 minus sel1)` concatenated box by box by index range, min/max rows likewise. "
-        "Negative half (~20%): second input with one level less, a removed box or a split box must be refused with "
+        "Negative half (~20%): second input with one level less, a removed box, a split box, or all boxes moved by one coarse cell on a far-placed domain (bounds equal to 1e-5 relative) must be refused with "
         "nothing written; a pair listing the same boxes in another header order may be refused (nothing written) or "
         "combined correctly. Non-trivial = the two layouts differ or one is non-monotone, or a selection drops / "
         "reorders fields, or a negative case.")
@@ -26,7 +26,7 @@ ASSUMPTIONS = ["selections are given as a space-separated string or a list on ei
 
 @st.composite
 def cases(draw, tier="quick"):
-    spec = draw(plotgen.plot_specs(thin=True, ndims=3, max_cells=2500 if tier == "quick" else 8000, max_fields=4,
+    spec = draw(plotgen.plot_specs(thin=True, level_prefix=True, ndims=3, max_cells=2500 if tier == "quick" else 8000, max_fields=4,
                                    payload_kinds=("coded", "random", "special")))
     f1 = spec["fields"]
     pool = [p for p in plotgen.FIELD_POOL]
@@ -47,7 +47,7 @@ def cases(draw, tier="quick"):
             out.insert(draw(st.integers(0, len(out))), "nope")
         return out
     vars1, vars2 = sel(f1), sel(f2)
-    neg = draw(st.sampled_from([None] * 5 + ["levels", "removed", "split", "header_order"]))
+    neg = draw(st.sampled_from([None] * 5 + ["levels", "removed", "split", "header_order", "moved"]))
     nlev = spec["mesh"]["nlev"]
     code = st.lists(st.integers(0, 7), max_size=4)
     # task start / completion orders of the per-file workers of each level (empty = submission order)
@@ -55,7 +55,9 @@ def cases(draw, tier="quick"):
     return dict(spec=spec, fields2=f2, layout2=layout2, payload2=payload2, vars1=vars1, vars2=vars2, neg=neg,
                 same_layout=draw(st.sampled_from([False, False, False, True])), sched=sched,
                 how=draw(st.sampled_from(["api", "api", "cli", "api_swapped_types", "api_limited"])),
-                limit=draw(st.integers(0, nlev - 1)))
+                limit=draw(st.integers(0, nlev - 1)),
+                # level directory names of the second input: as the first (None), the default, or other ones
+                prefix2=draw(st.sampled_from([None, None, None, "Level_", "Lev_", "lvl"])))
 
 
 def compact(case):
@@ -69,6 +71,8 @@ def second_spec(case):
     s2["payload"] = case["payload2"]
     if not case.get("same_layout"):
         s2["layout_override"] = case["layout2"]
+    if case.get("prefix2"):
+        s2["level_prefix"] = case["prefix2"]
     return s2
 
 
@@ -81,6 +85,11 @@ def make_negative(case, s2):
             return s2, None
         mesh["nlev"] -= 1
         mesh["rects"] = mesh["rects"][:mesh["nlev"] - 1]
+        return s2, neg
+    if neg == "moved":
+        # the same boxes one level-0 cell further along x (index space and stated bounds), on a domain placed so far from
+        # the origin that the stated bounds of the two meshes agree to 1e-5 relative: the meshes differ all the same
+        s2["index_shift"] = [1, 0, 0]
         return s2, neg
     if neg == "header_order":
         mesh["order_seed"] = mesh["order_seed"] + 1
@@ -118,6 +127,10 @@ def check_case(case, ctx):
     from amr_kitchen import PlotfileCooker
     from amr_kitchen.combine import combine
     ctx.fresh()
+    if case["neg"] == "moved":
+        case = copy.deepcopy(case)
+        g = case["spec"]["geom"]
+        g["origin"] = [3e5 * x for x in g["lengths"]]
     p1 = plotgen.Plot(case["spec"])
     s2 = second_spec(case)
     neg = None
@@ -179,7 +192,7 @@ def check_case(case, ctx):
         d = snapshot_diff(s, snapshot(name))
         if d:
             v.append(f"input {name} was modified: {d[:3]}")
-    if neg in ("levels", "removed", "split"):
+    if neg in ("levels", "removed", "split", "moved"):
         if raised is None:
             v.append(f"inputs whose {neg} differ were combined instead of refused")
         if os.path.lexists("out"):
